@@ -64,6 +64,8 @@ pub struct Ctx<'a> {
     pub docs: &'a HashMap<String, Doc>,
     pub thorough: bool,
     pub arena: Arena,
+    /// restrict the iteration to one generated type (replay)
+    pub only: Option<(String, String, String)>,
 }
 
 fn case_json(e: &Entry, v: &Val, extra: Value) -> Value {
@@ -170,11 +172,20 @@ fn roundtrip_one(col: &mut Collector, cx: &Ctx, e: &Entry, doc: &Doc, def: &Type
     }
 }
 
+pub fn for_each_type_pub(cx: &Ctx, col: &mut Collector, cfgs: &[&str], f: impl FnMut(&mut Collector, &Entry, &Doc, &TypeDef)) {
+    for_each_type(cx, col, cfgs, f)
+}
+
 fn for_each_type(cx: &Ctx, col: &mut Collector, cfgs: &[&str], mut f: impl FnMut(&mut Collector, &Entry, &Doc, &TypeDef)) {
     let mut matched = 0;
     for e in &cx.h.entries {
         if !cfgs.contains(&e.cfg) {
             continue;
+        }
+        if let Some((d, c, t)) = &cx.only {
+            if e.doc != d || e.cfg != c || e.ty != t {
+                continue;
+            }
         }
         let doc = match cx.docs.get(e.doc) {
             Some(d) => d,
@@ -368,12 +379,18 @@ fn empty_of(doc: &Doc, ty: &super::schema::Ty, g: &Gen) -> Val {
 }
 
 pub fn run(h: &Harness, docs: &HashMap<String, Doc>, a: &Args) {
-    let cx = Ctx { h, docs, thorough: a.thorough(), arena: Arena::new(8 << 20) };
+    let cx = Ctx { h, docs, thorough: a.thorough(), arena: Arena::new(8 << 20), only: None };
     let mut col = Collector::new(&a.check, a);
     match a.check.as_str() {
         "C02" => c02(&cx, &mut col, "C02"),
         "C04" => c02(&cx, &mut col, "C04"),
         "C20" => c20(&cx, &mut col),
+        "C08" => super::tchecks2::c08(&cx, &mut col),
+        "C13" => super::tchecks2::c13(&cx, &mut col),
+        "C09" => super::tchecks2::c09(&cx, &mut col, false),
+        "C19" => super::tchecks2::c09(&cx, &mut col, true),
+        "C11" => super::tchecks2::c11(&cx, &mut col),
+        "C12" => super::tchecks2::c12(&cx, &mut col),
         "list" => {
             for e in &h.entries {
                 println!("{} {} {} {} size_of={}", e.doc, e.cfg, e.ty, e.path, e.ops.size_of);
@@ -391,8 +408,14 @@ pub fn run(h: &Harness, docs: &HashMap<String, Doc>, a: &Args) {
 pub fn replay(h: &Harness, docs: &HashMap<String, Doc>, a: &Args, r: &Value) -> Vec<(String, String)> {
     let mut a2 = a.clone();
     a2.progress = None;
-    let cx = Ctx { h, docs, thorough: true, arena: Arena::new(8 << 20) };
     let prop = r["property"].as_str().unwrap_or("").to_string();
+    let thorough = r["tier"].as_str() == Some("thorough");
+    let only = Some((
+        r["case"]["doc"].as_str().unwrap_or("").to_string(),
+        r["case"]["cfg"].as_str().unwrap_or("").to_string(),
+        r["case"]["ty"].as_str().unwrap_or("").to_string(),
+    ));
+    let cx = Ctx { h, docs, thorough, arena: Arena::new(8 << 20), only: if matches!(prop.as_str(), "C02" | "C04" | "C20") { None } else { only } };
     let mut col = Collector::new(&prop, &a2);
     col.index = 1;
     let case = &r["case"];
@@ -421,6 +444,14 @@ pub fn replay(h: &Harness, docs: &HashMap<String, Doc>, a: &Args, r: &Value) -> 
                 }
             }
         }
+        // the other generated-code checks are replayed by re-running the check restricted to the
+        // recorded generated type (sub-second) and reporting every failure of that type
+        "C08" => super::tchecks2::c08(&cx, &mut col),
+        "C13" => super::tchecks2::c13(&cx, &mut col),
+        "C09" => super::tchecks2::c09(&cx, &mut col, false),
+        "C19" => super::tchecks2::c09(&cx, &mut col, true),
+        "C11" => super::tchecks2::c11(&cx, &mut col),
+        "C12" => super::tchecks2::c12(&cx, &mut col),
         _ => {}
     }
     col.failures.iter().map(|(s, g)| (s.clone(), g.detail.clone())).collect()
